@@ -3812,6 +3812,25 @@ class ScoreVariant(object):
             # etc), in o_map
             o_map = {}
             o_new = set()
+            # a time or key signature that is in force at the start of the
+            # segment but was given before it is restated when the new part
+            # stands under another one at that place (e.g. after a jump back
+            # over a change of signature)
+            for cls, attrs in (
+                (TimeSignature, ("beats", "beat_type")),
+                (KeySignature, ("fifths", "mode")),
+            ):
+                if start == end or next(start.iter_starting(cls), None) is not None:
+                    continue
+                in_force = next(start.iter_prev(cls), None)
+                if in_force is None:
+                    continue
+                tp_new = part.get_or_add_point(start.t + delta)
+                prev = next(tp_new.iter_prev(cls, eq=True), None)
+                if prev is None or any(
+                    getattr(prev, a) != getattr(in_force, a) for a in attrs
+                ):
+                    tp_new.add_starting_object(copy(in_force))
             tp = start
             while tp != end:
                 # make a new timepoint, corresponding to tp
